@@ -192,6 +192,9 @@ namespace
                         bool boom = std::is_same<E, tracked::T>::value && mod(arg(o, 3), 9) == 0;
                         bool thrown = false;
                         if (boom) tracked::reg().throw_after = 1;
+                        // fault: the vector is full and the allocator refuses the larger block
+                        bool refuse = !boom && x.size() == x.capacity() && mod(arg(o, 3), 9) == 4;
+                        simalloc::st().refuse_next = refuse;
                         try
                         {
                             if (k == V_PUSH) x.push_back(e);
@@ -203,6 +206,12 @@ namespace
                             thrown = true;
                             probe("append_with_throwing_constructor");
                         }
+                        catch (const std::bad_alloc &)
+                        {
+                            thrown = true;
+                            if (!refuse) throw;
+                        }
+                        simalloc::st().refuse_next = false;
                         tracked::reg().throw_after = 0;
                         if (val_of(e) != val) violate("C02/argument-modified", "the object passed to %s as an lvalue holds %d afterwards, it held %d (it was moved from instead of copied)", V_NAME[k], val_of(e), val);
                         if (!thrown) mx.push_back(val);
@@ -311,8 +320,24 @@ namespace
                         break;
                     }
                     case V_RESERVE:
-                        x.reserve((size_t)mod(arg(o, 2), 40));
+                    {
+                        size_t want = (size_t)mod(arg(o, 2), 40);
+                        // fault: the allocator refuses the request - the vector is unchanged and still owns its old block (a vector
+                        // that believed in the capacity it did not get would write past its block with the next appends: ASan)
+                        bool refuse = want > x.capacity() && mod(arg(o, 3), 5) == 0;
+                        simalloc::st().refuse_next = refuse;
+                        try
+                        {
+                            x.reserve(want);
+                            if (refuse) violate("C02/harness", "refused allocation went unnoticed");
+                        }
+                        catch (const std::bad_alloc &)
+                        {
+                            if (x.data() != data0) violate("C02/refused-allocation", "after a refused reserve(%zu) the vector points to another block", want);
+                        }
+                        simalloc::st().refuse_next = false;
                         break;
+                    }
                     case V_CLEAR:
                     {
                         long h0 = dtor_count<E>();
